@@ -267,6 +267,12 @@ func preliminaryProcessesChecks(processes []*Process, assumedFreeNames []Name, g
 			}
 		}
 
+		// A process declared with several provider names is duplicated (one copy per name), which
+		// is only allowed if the mode of its type admits contraction
+		if len(processes[i].Providers) > 1 && !types.IsContractable(processes[i].Type) {
+			return fmt.Errorf("(%s) process %s has several provider names, but its type is in %s mode, which cannot be split", processes[i].Position.String(), processes[i].OutlineString(), processes[i].Type.Modality().FullString())
+		}
+
 		// todo check for the declaration of independence here as well
 	}
 
